@@ -1491,3 +1491,65 @@ Section StepTable.
     - apply tpres_refl.
   Qed.
 End StepTable.
+
+(* ------------------------------------------------------------------ C04: timer facts and immediate completion *)
+Lemma min_entry_in l m : min_entry l = Some m -> In m l.
+Proof.
+  revert m. induction l as [|e r IH]; intros m H; cbn in H; [discriminate|].
+  destruct (min_entry r) as [m'|] eqn:E.
+  - destruct (te_lt m' e); inversion H; subst; [right; apply IH; reflexivity | left; reflexivity].
+  - inversion H; subst. left. reflexivity.
+Qed.
+
+Lemma min_entry_none l : min_entry l = None -> l = [].
+Proof.
+  destruct l as [|e r]; [reflexivity|]. cbn. destruct (min_entry r) as [m|]; [destruct (te_lt m e)|]; discriminate.
+Qed.
+
+(* the timer yields an entry with the least (deadline, id): no other entry is strictly earlier *)
+Lemma min_entry_least l m : min_entry l = Some m -> forall e, In e l -> te_lt e m = false.
+Proof.
+  revert m. induction l as [|x r IH]; intros m H e He; [destruct He|]. cbn in H.
+  destruct (min_entry r) as [m'|] eqn:E.
+  - specialize (IH m' eq_refl).
+    destruct (te_lt m' x) eqn:L; inversion H; subst.
+    + destruct He as [<-|He]; [|apply IH, He].
+      unfold te_lt in *. lia.
+    + destruct He as [<-|He]; [unfold te_lt; lia|].
+      specialize (IH e He). unfold te_lt in *. lia.
+  - inversion H; subst. apply min_entry_none in E. subst r. destruct He as [<-|[]]. unfold te_lt. lia.
+Qed.
+
+Lemma pop_timer_least tm e tm' : pop_timer tm = Some (e, tm') ->
+  In e (tm_entries tm) /\ (forall x, In x (tm_entries tm) -> te_lt x e = false) /\
+  tm' = cancel (te_deadline e, te_id e) tm.
+Proof.
+  unfold pop_timer. destruct (min_entry (tm_entries tm)) as [m|] eqn:E; [|discriminate].
+  intros H. inversion H; subst. split; [eapply min_entry_in, E|]. split; [apply min_entry_least, E | reflexivity].
+Qed.
+
+(* cancel removes exactly the entries with that key *)
+Lemma cancel_spec key tm x : In x (tm_entries (cancel key tm)) <-> In x (tm_entries tm) /\ key_eqb (te_deadline x, te_id x) key = false.
+Proof.
+  unfold cancel. cbn [tm_entries]. rewrite filter_In. destruct (key_eqb _ key); cbn; intuition congruence.
+Qed.
+
+Section C04.
+  Variable I : ids.
+  Variable sendok : nat -> bool.
+  Variable cf : cfg.
+  Variable single_refresh : bool.
+
+  (* a search on a node that knows no good node ends in the very step that starts it, having
+     queried nobody *)
+  Theorem no_good_node_immediate now s ih an :
+    filter (fun n => status_eqb (node_status now n) Good) (closest_nodes now (ns_table s) ih) = [] ->
+    snd (start_lookup I sendok cf now s ih an) = [OStreamEnd (ns_next_act s)] /\
+    ns_lookups (fst (start_lookup I sendok cf now s ih an)) = ns_lookups s.
+  Proof.
+    intros H. unfold start_lookup, lookup_new, ctx_of. cbn [cx_table]. rewrite H. cbn [firstn fold_left map skipn app].
+    unfold start_request_round. cbn [request_round Nat.eqb set_active lk_active].
+    unfold recv_finished. cbn [lk_tokens lk_sorted filter firstn map lk_announce].
+    destruct an; cbn; split; reflexivity.
+  Qed.
+End C04.
